@@ -419,6 +419,35 @@ func init() {
 		}
 		return it.ts.UF(fmt.Sprintf("crc32c_%d", len(data)), 32, data...)
 	}
+	intercepts["github.com/couchbase/sync_gateway/base.AllOrNoneNil"] = func(it *Interp, fn *ssa.Function, args []Value) Value {
+		// reflect-based helper: true iff all arguments are nil or none is
+		vals := it.sliceVals(args[0].(*SliceV))
+		nils := 0
+		for _, v := range vals {
+			iv := v.(*IfaceV)
+			isNil := iv.t == nil
+			if !isNil {
+				switch x := iv.v.(type) {
+				case *Ptr:
+					isNil = x.isNil()
+				case *MapV:
+					isNil = x.m == nil
+				case *SliceV:
+					isNil = x.cell == nil
+				case *FuncV:
+					isNil = x.fn == nil && x.native == ""
+				case *ChanV:
+					isNil = x.ch == nil
+				case *IfaceV:
+					isNil = x.t == nil
+				}
+			}
+			if isNil {
+				nils++
+			}
+		}
+		return it.ts.Bool(nils == 0 || nils == len(vals))
+	}
 	intercepts["maps.clone"] = func(it *Interp, fn *ssa.Function, args []Value) Value {
 		iv := args[0].(*IfaceV)
 		m, ok := iv.v.(*MapV)
